@@ -10,7 +10,10 @@ Three layers (``params['kind']``):
                TCP segmentation; good frames carry ids from a "good" id space, hostile frames are
                derived with the reference codec (``vf.refcodec``) and never contain a good id;
 * ``accept``   incoming connections whose first frame is hostile, interleaved with well-formed
-               PeerInit / PeerPierceFirewall connections.
+               PeerInit / PeerPierceFirewall connections;
+* ``fresh``    the same question in a FRESH child interpreter per case: the first frame of a message class
+               ever parsed is malformed inside field k, then valid frames of that class (direct and stream);
+* ``bigframe`` a valid frame over 64 KiB followed back-to-back by small valid frames.
 
 Every frame (good and hostile) is BUILT with the independent reference codec, never with the
 code under test.
@@ -43,18 +46,27 @@ STREAM_CAP = 1400                 # max body size of a hostile frame inside a st
 CALL_WATCHDOG = 10.0              # wall seconds per direct parser call
 
 SIZES = {
-    'quick': {'parser_batches': 160, 'batch': 500, 'streams': 1600, 'accept': 160, 'sem_random': 240},
-    'thorough': {'parser_batches': 8000, 'batch': 500, 'streams': 60000, 'accept': 3000, 'sem_random': 6000},
+    'quick': {'parser_batches': 160, 'batch': 500, 'streams': 1600, 'accept': 160, 'sem_random': 240,
+              'fresh_direct': 32, 'fresh_stream': 16, 'bigframe': 96},
+    'thorough': {'parser_batches': 8000, 'batch': 500, 'streams': 60000, 'accept': 3000, 'sem_random': 6000,
+                 'fresh_direct': 128, 'fresh_stream': 64, 'bigframe': 1200},
 }
 MIN_OBS = {
     'quick': {'parser_calls': 20000, 'streams': 380, 'frames_sent': 7000, 'hostile_frames': 2500,
               'good_frames_checked': 3000, 'reader_alive_checks': 380, 'accept_cases': 36, 'accept_bad_judged': 80,
-              'accept_good_judged': 60, 'semantic_cases': 120, 'collateral_checks': 700},
+              'accept_good_judged': 60, 'semantic_cases': 120, 'collateral_checks': 700,
+              # QUICK_FIXED (the runner halves them, it does not multiply them by QUICK_SCALE)
+              'fresh_processes': 92, 'fresh_direct_valid_frames_judged': 10000, 'fresh_stream_valid_frames_judged': 4800,
+              'fresh_first_parses_rejected': 7000, 'bigframe_cases': 180},
     'thorough': {'parser_calls': 2000000, 'streams': 29000, 'frames_sent': 500000, 'hostile_frames': 200000,
                  'good_frames_checked': 220000, 'reader_alive_checks': 29000, 'accept_cases': 1400,
                  'accept_bad_judged': 3000, 'accept_good_judged': 2400, 'semantic_cases': 3000,
-                 'collateral_checks': 48000},
+                 'collateral_checks': 48000,
+                 'fresh_processes': 370, 'fresh_direct_valid_frames_judged': 40000, 'fresh_stream_valid_frames_judged': 19000,
+                 'fresh_first_parses_rejected': 26000, 'bigframe_cases': 2300},
 }
+QUICK_FIXED = ('fresh_processes', 'fresh_direct_valid_frames_judged', 'fresh_stream_valid_frames_judged',
+               'fresh_first_parses_rejected', 'bigframe_cases')
 SHARD_TIMEOUT = {'quick': 600, 'thorough': 5400}
 
 RULE = (
@@ -78,7 +90,23 @@ RULE = (
     "according to the reference decoder), stalled (lying length) or well-formed PeerInit (plain / obfuscated port) or "
     "a solicited PeerPierceFirewall. A (sub)case is non-trivial when >= 1 hostile frame is followed by >= 1 good "
     "frame; distinct = (connection kind, multiset of hostile classes, good/bad position pattern, segmentation class), "
-    "for parser batches (entry point, input class, outcome), for accept cases the entry sequence."
+    "for parser batches (entry point, input class, outcome), for accept cases the entry sequence. "
+    "fresh: parsing state that a class builds up while it is first used makes the verdict depend on the history of the "
+    "process, so each fresh case runs in a CHILD INTERPRETER (python -m vf.props.c02) that has parsed nothing: for every "
+    "message class with >= 1 field of all four parsers, the first frame of that class ever parsed is malformed inside "
+    "on-wire field k (process index p: k = p mod n, variant = cut mid-field / cut at the field's last byte / cut before "
+    "the field / a string or array count inside the field := 2^32-1, the last three also reaching nested records; "
+    "consistent length prefix, zlib re-compressed), then two valid frames of the same class (seeded in-domain values, "
+    "maximal and random presence pattern) are fed — mode direct: through the dispatcher or decode_message_data of the "
+    "matching connection object (rotating, obfuscated included) and the returned object is compared field by field "
+    "with the value that was encoded; mode stream: one simulated world in the child, every class of the family on the "
+    "server / P / D link (plain for even p, obfuscated port for odd p) as one burst malformed, valid, valid, ... and "
+    "the valid frames must appear in order among the MessageReceivedEvents of that connection with the right content. "
+    "A control child per shard feeds the same valid frames without the malformed ones; what fails there is not judged. "
+    "bigframe: 0-2 small good frames, one VALID frame of 65537..400000 bytes (AdminMessage, PeerUserInfoReply with a "
+    "picture, zlib PeerDirectoryContentsReply, DistributedSearchRequest; boundary sizes 65537, 65540, 131072/3 forced) "
+    "and 1-3 small good frames written back-to-back (one write / one segment, random, fixed:4096, fixed:65536, "
+    "fixed:1000) on server, P, D links plain and obfuscated: the usual stream oracle."
 )
 ASSUMPTIONS = [
     "Statement readings: a frame whose length prefix is consistent and whose body the connection rejects must leave "
@@ -106,6 +134,11 @@ ASSUMPTIONS = [
     "the wishlist task spin without advancing time and is therefore excluded from random streams — reported "
     "separately), hostile bytes on F connections, hostile frames while a connection is being closed, "
     "connection life-cycle event order (C10).",
+    "fresh family: a child interpreter imports aioslsk afresh; in stream mode the login exchange has parsed "
+    "Login.Response and the replies to the client's own requests before the malformed frame of those few classes (that "
+    "IS the history of a real client). Classes without fields, WishlistInterval (known finding: a second frame ends "
+    "the reader) and PeerSearchReply (closes on purpose) are excluded from stream mode, not from direct mode. The "
+    "expected object of a valid frame is the plain tree that was encoded (absent optional fields: the pinned default).",
     "The per-call watchdog of the parser layer is wall clock (10 s for a body <= 64 KiB): a hang cannot be judged "
     "otherwise.",
 ]
@@ -127,6 +160,9 @@ WHAT_FAILS = {
     'accept:good-connection-affected': 'a well-formed incoming connection was not initialised / lost a frame / was closed',
     'accept:listener-down': 'a listening connection stopped accepting',
     'safety:': 'loop exception handler entry or unexpected ERROR record',
+    'fresh:valid-frame-after-malformed-first-frame-of-its-class': 'in a process whose first frame of a message class was '
+        'malformed, later valid frames of that class are rejected / decode to another object / are not delivered',
+    'stream:good-frame-lost:': 'a valid frame written after a hostile frame (or right behind a frame over 64 KiB) was never delivered',
 }
 
 FAMILIES = ('server', 'peerinit', 'peer', 'distributed')
@@ -446,7 +482,8 @@ def good_id(msg) -> Optional[int]:
     for f in flds:
         v = getattr(msg, f.name, None)
         if isinstance(v, str) and v.startswith(GOOD_S):
-            return int(v[len(GOOD_S):]) if v[len(GOOD_S):].isdigit() else -1
+            m = re.match(r'\d+', v[len(GOOD_S):])
+            return int(m.group(0)) if m else -1
         if isinstance(v, int) and not isinstance(v, bool) and (v >> 16) == (GOOD_I >> 16):
             return v & 0xFFFF
     return None
@@ -828,7 +865,9 @@ def _run_stream_world(res: dict, world_seed: str, kind: str, items: list, seg: s
         missing = [i for i in expected if i not in seen]
         if missing:
             pos = next(j for j, it in enumerate(items) if it.get('g') == missing[0])
-            before = next((items[j]['b'] for j in range(pos - 1, -1, -1) if 'b' in items[j]), 'none')
+            before = next((items[j]['b'] for j in range(pos - 1, -1, -1) if 'b' in items[j]), None)
+            if before is None:
+                before = 'after-frame-over-64KiB' if any(len(it['wire']) > 65540 for it in items[:pos]) else 'none'
             viol.append((f'stream:good-frame-lost:{kind}:{before}',
                          dict(detail, lost_ids=missing[:10], first_lost_position=pos, delivered_ids=ids[:60],
                               stream=_brief(items, pos))))
@@ -1400,6 +1439,418 @@ def _run_accept(res: dict, params: dict):
 
 
 # --------------------------------------------------------------------------------------------------
+# fresh-interpreter family: the FIRST frame of a message class ever parsed in a process is malformed
+# inside field k; valid frames of the same class must still decode to the right object / be delivered.
+# Shard processes have a long parsing history, so each case runs in a child interpreter.
+
+FRESH_STREAM_EXCLUDE = {'WishlistInterval.Response',      # two valid frames end the server reader (known finding)
+                        'PeerSearchReply.Request'}        # a valid frame makes the client close the link on purpose
+FRESH_VARIANTS = ('cut-mid-field', 'cut-last-byte-of-field', 'cut-before-field', 'count-lie-in-field')
+_RESULT_MARK = 'C02-FRESH-RESULT '
+_MISSING = object()
+_CONTROL_CACHE: dict = {}
+
+
+def _encode_bounds(lay: rc.Layout, spec: dict, tree: dict) -> tuple[bytes, list]:
+    """Uncompressed payload + per top-level on-wire field (name, start, end, count marks inside)."""
+    payload, bounds, marks = bytearray(), [], []
+    for fs in spec['fields']:
+        if not rc._on_wire(fs, tree):
+            continue
+        start, m0 = len(payload), len(marks)
+        _track_val(lay, fs['type'], tree.get(fs['name']), fs.get('subtype'), payload, marks)
+        bounds.append((fs['name'], start, len(payload), marks[m0:]))
+    return bytes(payload), bounds
+
+
+def _frame_of_payload(spec: dict, payload: bytes) -> bytes:
+    code = spec['code'].to_bytes(rc.INT_TYPES[spec['code_width']][0], 'little')
+    return frame_of(code + (zlib.compress(payload) if spec['compressed'] else payload))
+
+
+def _fresh_tree(fg: 'Forge', spec: dict, seed: int, j: int, want_max: bool) -> Optional[dict]:
+    """Seeded in-domain value of ``spec`` (payload <= 3000 bytes); with want_max the presence pattern that
+    puts the most fields on the wire.  Pure function of (seed, class, j)."""
+    best = None
+    npat = min(32, fg.gen.n_patterns(spec))
+    for attempt in range(6):
+        sels = range(npat) if want_max else [random.Random(f"{seed}:{ID}:fresh-sel:{spec['name']}:{j}:{attempt}").randrange(64)]
+        for sel in sels:
+            r = random.Random(f"{seed}:{ID}:fresh:{spec['name']}:{j}:{attempt}:{sel}")
+            tree, _p, _l = fg.gen.gen_fields(r, spec['fields'], c01gen.MIX, 0, sel)
+            try:
+                payload, bounds = _encode_bounds(fg.lay, spec, tree)
+            except rc.RefError:
+                continue
+            if len(payload) > 3000 or Forge.tainted(payload):
+                continue
+            if best is None or len(bounds) > best[0]:
+                best = (len(bounds), tree)
+        if best is not None:
+            return best[1]
+    return None
+
+
+def _same_value(lay: rc.Layout, tname: str, subtype: Optional[str], got: Any, exp: Any) -> bool:
+    if got is _MISSING:
+        return False
+    if tname == 'array':
+        return isinstance(got, (list, tuple)) and len(got) == len(exp) and \
+            all(_same_value(lay, subtype, None, g, e) for g, e in zip(got, exp))
+    if tname in lay.records:
+        return all(_same_value(lay, fs['type'], fs.get('subtype'), getattr(got, fs['name'], _MISSING), exp[fs['name']])
+                   for fs in lay.records[tname]['fields'])
+    if tname == 'bytearr':
+        return isinstance(got, (bytes, bytearray)) and bytes(got) == bytes(exp)
+    if tname == 'boolean':
+        return isinstance(got, (bool, int)) and bool(got) == bool(exp)
+    return type(got) is not bool and got == exp
+
+
+def _first_difference(lay: rc.Layout, spec: dict, obj: Any, tree: dict) -> Optional[str]:
+    """Name of the first field of ``obj`` that differs from the plain tree (None: the right object)."""
+    if type(obj).__qualname__ != spec['name']:
+        return f'class {type(obj).__qualname__}'
+    for fs in spec['fields']:
+        exp = tree.get(fs['name'])
+        got = getattr(obj, fs['name'], _MISSING)
+        if exp is None:
+            if got is _MISSING or got != (fs.get('default') if fs.get('has_default') else None):
+                return fs['name']
+        elif not _same_value(lay, fs['type'], fs.get('subtype'), got, exp):
+            return fs['name']
+    return None
+
+
+def _fresh_hostile(fg: 'Forge', spec: dict, tree: dict, p: int) -> Optional[dict]:
+    """Frame of ``spec`` malformed inside on-wire field k = p % n (consistent length prefix)."""
+    payload, bounds = _encode_bounds(fg.lay, spec, tree)
+    if not bounds:
+        return None
+    k = p % len(bounds)
+    variant = FRESH_VARIANTS[(p // len(bounds)) % len(FRESH_VARIANTS)]
+    name, start, end, marks = bounds[k]
+    if variant == 'count-lie-in-field' and not marks:
+        variant = 'cut-mid-field'
+    if variant == 'cut-mid-field':
+        bad = payload[:start + (end - start) // 2]
+    elif variant == 'cut-last-byte-of-field':
+        bad = payload[:max(start, end - 1)]
+    elif variant == 'cut-before-field':
+        bad = payload[:start]
+    else:
+        _kind, off, _n = marks[(p // 7) % len(marks)]
+        b = bytearray(payload)
+        b[off:off + 4] = (0xFFFFFFFF).to_bytes(4, 'little')
+        bad = bytes(b)
+    return {'field': name, 'k': k, 'variant': variant, 'frame': _frame_of_payload(spec, bad)}
+
+
+def _fresh_plan(fg: 'Forge', fam: str, seed: int, p: int, stream: bool) -> list[dict]:
+    """Per class of the family: hostile first frame (field k of this process) and two valid frames."""
+    plan = []
+    for spec in fg.specs[fam]:
+        if stream and spec['name'] in FRESH_STREAM_EXCLUDE:
+            continue
+        th = _fresh_tree(fg, spec, seed, 0, True)
+        v1 = _fresh_tree(fg, spec, seed, 1, True)
+        v2 = _fresh_tree(fg, spec, seed, 2, False)
+        if th is None or v1 is None or v2 is None:
+            continue
+        h = _fresh_hostile(fg, spec, th, p)
+        if h is None:
+            continue                      # a class without fields has no field k
+        valid = []
+        for tree in (v1, v2):
+            payload, _b = _encode_bounds(fg.lay, spec, tree)
+            valid.append({'tree': tree, 'frame': _frame_of_payload(spec, payload)})
+        plan.append({'spec': spec, 'hostile': h, 'valid': valid})
+    return plan
+
+
+def _fresh_child_direct(payload: dict) -> dict:
+    """Runs in a fresh interpreter: nothing of aioslsk.protocol has parsed anything yet."""
+    from aioslsk.protocol.primitives import MessageDataclass
+    fg = forge()
+    seed, p, control = payload['seed'], payload['p'], payload['control']
+    logging.getLogger('aioslsk').addHandler(logging.NullHandler())
+    logging.getLogger('aioslsk').propagate = False
+    eps = {}
+    for name, fam, fn, is_decode, obf in _entry_points():
+        eps.setdefault(fam, []).append((name, fn, obf))
+    out = {'failures': [], 'classes': 0, 'valid_frames': 0, 'first_parses_rejected': 0, 'first_parses_decoded': 0,
+           'entry_points': []}
+    rng = random.Random(f'{seed}:{ID}:fresh-keys:{p}')
+    for fam in FAMILIES:
+        choices = eps[fam]
+        for ci, item in enumerate(_fresh_plan(fg, fam, seed, p, False)):
+            spec = item['spec']
+            name, fn, obf = choices[(p + ci) % len(choices)]
+            if name not in out['entry_points']:
+                out['entry_points'].append(name)
+
+            def feed(frame: bytes):
+                return fn(rc.obf_encode(frame, c01gen.gen_key(rng)) if obf else frame)
+            out['classes'] += 1
+            h = item['hostile']
+            first = None
+            if not control:
+                try:
+                    feed(h['frame'])
+                    first = 'decoded'
+                    out['first_parses_decoded'] += 1
+                except Exception as exc:  # noqa — the rejection of the malformed frame is what the property allows
+                    first = f'rejected:{type(exc.__cause__ or exc).__name__}'
+                    out['first_parses_rejected'] += 1
+            for vi, v in enumerate(item['valid']):
+                out['valid_frames'] += 1
+                fail = None
+                try:
+                    obj = feed(v['frame'])
+                    if not isinstance(obj, MessageDataclass):
+                        fail = ('wrong-object', f'returned {type(obj).__name__}')
+                    else:
+                        diff = _first_difference(fg.lay, spec, obj, v['tree'])
+                        if diff is not None:
+                            fail = ('wrong-object', f'field {diff} differs: {obj!r}'[:300])
+                except Exception as exc:  # noqa — judged: a valid frame must not be rejected
+                    cause = exc.__cause__ or exc
+                    fail = ('rejected', f'{type(cause).__name__}: {cause}'[:300])
+                if fail is not None:
+                    out['failures'].append({
+                        'family': fam, 'class': spec['name'], 'entry_point': name, 'valid_frame': vi, 'what': fail[0],
+                        'error': fail[1], 'first_frame_of_the_class': None if control else {
+                            'malformed_in_field': h['field'], 'k': h['k'], 'variant': h['variant'],
+                            'hex': _hx(h['frame'], 120), 'outcome': first},
+                        'valid_hex': _hx(v['frame'], 160), 'valid_value': rc.tree_to_json(v['tree'], 60)})
+    return out
+
+
+def _fresh_child_stream(payload: dict) -> dict:
+    """Fresh interpreter + one simulated world: on the server, a P and a D link, for every class of the
+    family: malformed first frame of the class, then two valid frames of the class, all in one burst."""
+    from aioslsk.events import MessageReceivedEvent
+    from aioslsk.network.connection import ConnectionState
+    from vf.simloop import settle
+    from vf.simnet import ConnPlan
+    from vf.world import World, run_world
+
+    fg = forge()
+    seed, p, control = payload['seed'], payload['p'], payload['control']
+    obf = bool(payload['obf'])
+    rng = random.Random(f'{seed}:{ID}:fresh-stream-keys:{p}')
+    out = {'failures': [], 'classes': 0, 'valid_frames': 0, 'delivered': 0, 'links': [], 'aborted': None,
+           'first_parses_rejected': 0}
+
+    async def main(w: World):
+        w.net.planner = lambda node, host, port, attempt: ConnPlan(
+            latency=0.005, seg=('random', 'whole', 'fixed:7')[p % 3], seg_lat=(0.0002, 0.0015))
+        await w.start_server()
+        h = await w.add_client('me')
+        h.record(MessageReceivedEvent)
+        net = h.client.network
+        p1 = await w.add_peer('p1')
+        await settle(1.0)
+        ip_me = w.net.ip_of('me')
+
+        def client_conn_of(link):
+            for c in net.peer_connections:
+                if c._writer is not None and c._writer.transport.conn is link.conn:
+                    return c
+            return None
+        for kind, fam in (('server', 'server'), ('peer-obf' if obf else 'peer', 'peer'), ('dist-obf' if obf else 'dist', 'distributed')):
+            if kind == 'server':
+                conn, writer = net.server_connection, w.server.session_of('me').writer
+            else:
+                link = await p1.dial(h.obf_port if obf else h.port, 'P' if fam == 'peer' else 'D', host=ip_me, obfuscated=obf)
+                await settle(0.5)
+                conn, writer = client_conn_of(link), link.writer
+            if conn is None or conn.state != ConnectionState.CONNECTED or conn._reader_task is None:
+                raise RuntimeError(f'setup: {kind} connection not ready')
+            reader_task = conn._reader_task
+            plan = _fresh_plan(fg, fam, seed, p, True)
+            rejected: list = []
+            orig = conn.decode_message_data
+
+            def recording(data, orig=orig, rejected=rejected):
+                try:
+                    return orig(data)
+                except Exception as exc:  # noqa — recorded for the witness only, re-raised unchanged
+                    rejected.append(f'{type(exc.__cause__ or exc).__name__}: {exc.__cause__ or exc}'[:200])
+                    raise
+            conn.decode_message_data = recording
+            wires, expected = [], []
+            for item in plan:
+                frames = ([] if control else [item['hostile']['frame']]) + [v['frame'] for v in item['valid']]
+                for fr in frames:
+                    wires.append(rc.obf_encode(fr, c01gen.gen_key(rng)) if kind == 'peer-obf' else fr)
+                for vi, v in enumerate(item['valid']):
+                    expected.append((item, vi))
+            ev0 = len(h.events)
+            tr = writer.transport
+            sc, d = tr.conn, tr.dir
+            writer.write(b''.join(wires))
+            for _ in range(400):
+                await settle(0.25)
+                if sc.delivered[d] >= sc.written[d] or tr.peer._closing or tr.peer._lost:
+                    break
+            await settle(1.0)
+            msgs = [e.message for _, e in h.events[ev0:] if e.connection is conn]
+            alive = conn.state == ConnectionState.CONNECTED and not tr.peer._closing and not reader_task.done()
+            out['links'].append({'kind': kind, 'classes': len(plan), 'frames_written': len(wires), 'events': len(msgs),
+                                 'frames_rejected': len(rejected), 'alive_afterwards': alive})
+            out['first_parses_rejected'] += min(len(rejected), len(plan))
+            if not alive:
+                out['aborted'] = f'{kind} connection closed or reader ended during the burst (not judged here)'
+                return
+            cursor = 0
+            for item, vi in expected:
+                spec, v = item['spec'], item['valid'][vi]
+                out['valid_frames'] += 1
+                found = None
+                for j in range(cursor, len(msgs)):
+                    if type(msgs[j]).__qualname__ == spec['name'] and _first_difference(fg.lay, spec, msgs[j], v['tree']) is None:
+                        found = j
+                        break
+                if found is None:
+                    hst = item['hostile']
+                    out['failures'].append({
+                        'connection': kind, 'class': spec['name'], 'valid_frame': vi, 'what': 'not-delivered',
+                        'first_frame_of_the_class': None if control else {
+                            'malformed_in_field': hst['field'], 'k': hst['k'], 'variant': hst['variant'], 'hex': _hx(hst['frame'], 120)},
+                        'valid_hex': _hx(v['frame'], 160), 'valid_value': rc.tree_to_json(v['tree'], 60),
+                        'rejections_logged': rejected[-3:]})
+                else:
+                    cursor = found + 1
+                    out['delivered'] += 1
+            out['classes'] += len(plan)
+        await w.stop_clients()
+
+    res = run_world(f'{ID}:fresh-stream:{seed}:{p}', main, wall_timeout=150)
+    if res.inconclusive:
+        out['aborted'] = 'world: ' + res.inconclusive
+    return out
+
+
+def _spawn_child(payload: dict, timeout: float = 300.0) -> dict:
+    import json
+    import os
+    import subprocess
+    import sys
+    here = os.path.dirname(os.path.dirname(os.path.dirname(os.path.abspath(__file__))))
+    proc = subprocess.run([sys.executable, '-m', 'vf.props.c02'], input=json.dumps(payload), capture_output=True,
+                          text=True, timeout=timeout, cwd=here, env=dict(os.environ))
+    for line in reversed(proc.stdout.splitlines()):
+        if line.startswith(_RESULT_MARK):
+            return json.loads(line[len(_RESULT_MARK):])
+    raise RuntimeError(f'fresh child failed rc={proc.returncode}: {proc.stderr[-600:]}')
+
+
+def _run_fresh(res: dict, params: dict):
+    mode, seed, p = params['mode'], params['seed'], params['p']
+    base = {'mode': mode, 'seed': seed, 'p': p, 'obf': p % 2 if mode == 'stream' else 0}
+    ckey = (mode, seed, base['obf'])
+    if ckey not in _CONTROL_CACHE:
+        # same valid frames, no malformed frame first: what fails here is the harness' (or another property's) business
+        _CONTROL_CACHE[ckey] = _spawn_child(dict(base, p=0 if mode == 'direct' else base['obf'], control=True))
+    control = _CONTROL_CACHE[ckey]
+    test = _spawn_child(dict(base, control=False))
+    if test.get('aborted') or control.get('aborted'):
+        res['inconclusive'] = f"fresh {mode} child: {test.get('aborted') or control.get('aborted')}"
+        return
+    bad_in_control = {(f['class'], f['valid_frame']) for f in control['failures']}
+    reported: set = set()
+    for f in test['failures']:
+        if (f['class'], f['valid_frame']) in bad_in_control:
+            runner.add_obs(res, 'fresh_failures_also_in_control_not_judged')
+            continue
+        where = f.get('family') or f.get('connection')
+        sig = f"fresh:valid-frame-after-malformed-first-frame-of-its-class:{f['what']}:{where}"
+        if sig not in reported:
+            reported.add(sig)
+            runner.violation(res, sig, witness=f, process_index=p, mode=mode,
+                             other_failures=[(g['class'], g['what']) for g in test['failures'] if g is not f][:12])
+    runner.add_obs(res, 'fresh_processes')
+    runner.add_obs(res, f'fresh_{mode}_classes_judged', test['classes'])
+    runner.add_obs(res, f'fresh_{mode}_valid_frames_judged', test['valid_frames'])
+    runner.add_obs(res, 'fresh_first_parses_rejected', test.get('first_parses_rejected', 0))
+    if mode == 'stream':
+        runner.add_obs(res, 'fresh_stream_frames_delivered', test['delivered'])
+    for name in test.get('entry_points', []):
+        runner.add_cover(res, 'fresh_entry_points', name)
+    res['csigs'].append(f'fresh|{mode}|{p}')
+    res['sample'] = {'kind': 'fresh', 'params': params, 'child': {k: v for k, v in test.items() if k != 'failures'},
+                     'control_failures': len(control['failures'])}
+
+
+# --------------------------------------------------------------------------------------------------
+# frames over 64 KiB followed back-to-back by small frames
+
+def big_good(fam: str, n: int, size: int) -> tuple[str, bytes]:
+    """A VALID frame of about ``size`` bytes (> 64 KiB) carrying good id n."""
+    fg = forge()
+    sid, iid = f'{GOOD_S}{n}', GOOD_I | n
+    if fam == 'server':
+        return 'AdminMessage.Response', fg.encode('AdminMessage.Response', message=sid + ' ' + 'x' * size)
+    if fam == 'distributed':
+        return 'DistributedSearchRequest.Request', fg.encode(
+            'DistributedSearchRequest.Request', unknown=0x31, username='searcher', ticket=iid, query='q' * size)
+    if n % 2 == 0:
+        r = random.Random(f'c02-big-picture:{n}')
+        return 'PeerUserInfoReply.Request', fg.encode(
+            'PeerUserInfoReply.Request', description=sid, has_picture=True, picture=r.randbytes(size), upload_slots=1,
+            queue_size=0, has_slots_free=True)
+    r = random.Random(f'c02-big-dir:{n}')
+    files: list = []
+    want = max(size, 65541)
+    while True:                       # zlib: grow the directory until the COMPRESSED frame is big enough
+        for _ in range(max(64, (want - 20 * len(files)) // 20)):
+            files.append({'unknown': 1, 'filename': '%032x.flac' % r.getrandbits(128), 'filesize': r.getrandbits(30),
+                          'extension': '', 'attributes': []})
+        wire = fg.encode('PeerDirectoryContentsReply.Request', ticket=iid, directory='music',
+                         directories=[{'name': 'music', 'files': files}])
+        if len(wire) >= want:
+            return 'PeerDirectoryContentsReply.Request', wire
+        want += want - len(wire)
+
+
+def _run_bigframe(res: dict, params: dict):
+    rng = random.Random(f"{params['seed']}:{ID}:bigframe:{params['idx']}")
+    idx = params['idx']
+    kind = ('peer', 'peer-obf', 'server', 'peer', 'peer-obf', 'dist', 'peer', 'dist-obf')[idx % 8]
+    fam = FAMILY_OF[kind]
+    fg = forge()
+    size = rng.choice((65537, 65540, 66000, 70000, 100000, 131072, 131073, 200000, 400000)) if idx % 3 else rng.randint(65537, 400000)
+    seg, wmode = (('whole', 'one-write'), ('random', 'one-write'), ('fixed:4096', 'one-write'), ('fixed:65536', 'per-frame'),
+                  ('whole', 'per-frame'), ('fixed:1000', 'one-write'))[(idx // 8) % 6]
+    gid = rng.randrange(0, 60000)
+    items = []
+    for _ in range(rng.randint(0, 2)):
+        gid += 1
+        name, wire = fg.good(fam, gid, rng.randrange(8))
+        items.append({'g': gid, 'name': name, 'wire': wire})
+    gid += 1
+    name, wire = big_good(fam, gid, size)
+    if len(wire) <= 65536 + 4:
+        res['inconclusive'] = f'harness: big frame is only {len(wire)} bytes'
+        return
+    items.append({'g': gid, 'name': name, 'wire': wire})
+    follow = rng.randint(1, 3)
+    for _ in range(follow):
+        gid += 1
+        name, wire = fg.good(fam, gid, rng.randrange(8))
+        items.append({'g': gid, 'name': name, 'wire': wire})
+    info = _run_stream_world(res, f"{ID}:bigframe:{params['seed']}:{idx}", kind, items, seg, wmode, 'bigframe')
+    if info is None:
+        return
+    runner.add_obs(res, 'bigframe_cases')
+    runner.add_obs(res, 'bigframe_bytes', len(items[-follow - 1]['wire']))
+    res['csigs'].append(f"bigframe|{kind}|{items[-follow - 1]['name']}|{len(items) - follow - 1}+1+{follow}|{seg_class(seg, wmode)}")
+    res['sample'] = {'kind': 'bigframe', 'params': params, 'connection': kind, 'segmentation': seg, 'writes': wmode,
+                     'stream': [{'good': it['g'], 'message': it['name'], 'bytes': len(it['wire'])} for it in items], 'observed': info}
+
+
+# --------------------------------------------------------------------------------------------------
 
 def cases(tier: str, seed: int) -> list[dict]:
     sz = SIZES[tier]
@@ -1409,6 +1860,12 @@ def cases(tier: str, seed: int) -> list[dict]:
         for i, lab in enumerate(menu()[fam]):
             for kind in kinds:
                 out.append({'kind': 'semantic', 'mode': 'sys', 'conn': kind, 'entries': [lab], 'seg': 'whole', 'wmode': 'per-frame'})
+    for p in range(sz['fresh_direct']):
+        out.append({'kind': 'fresh', 'mode': 'direct', 'seed': seed, 'p': p})
+    for p in range(sz['fresh_stream']):
+        out.append({'kind': 'fresh', 'mode': 'stream', 'seed': seed, 'p': p})
+    for i in range(sz['bigframe']):
+        out.append({'kind': 'bigframe', 'seed': seed, 'idx': i})
     for i in range(sz['accept']):
         out.append({'kind': 'accept', 'seed': seed, 'idx': i})
     rng = random.Random(f'{seed}:{ID}:cases')
@@ -1444,6 +1901,10 @@ def run_case(params: dict) -> dict:
         _run_semantic(res, params)
     elif kind == 'accept':
         _run_accept(res, params)
+    elif kind == 'fresh':
+        _run_fresh(res, params)
+    elif kind == 'bigframe':
+        _run_bigframe(res, params)
     else:
         res['inconclusive'] = f'unknown case kind {kind!r}'
     return res
@@ -1454,3 +1915,11 @@ def finish(total: dict, tier: str, seed: int) -> None:
     total['obs']['conn_kinds_covered'] = len(cov.get('conn_kinds', []))
     total['obs']['stream_classes_covered'] = len(cov.get('stream_classes', []))
     total['obs']['semantic_entries_covered'] = len(cov.get('semantic_classes', []))
+
+
+if __name__ == '__main__':          # child of _spawn_child: fresh interpreter, parameters as JSON on stdin
+    import json as _json
+    import sys as _sys
+    _payload = _json.loads(_sys.stdin.read())
+    _out = _fresh_child_direct(_payload) if _payload['mode'] == 'direct' else _fresh_child_stream(_payload)
+    print(_RESULT_MARK + _json.dumps(_out, default=str))
